@@ -3,6 +3,7 @@ import RuxModel.Drv.Lru
 import RuxModel.Drv.Route
 import RuxModel.Drv.Gates
 import RuxModel.Drv.Chain
+import RuxModel.Drv.Bind
 /-
   Line-protocol driver: `driver <engine>` reads op lines on stdin and answers one line per op.
   Lines starting with `#` are echoed (they separate cases and carry comments).
@@ -27,7 +28,8 @@ def engines : List (String × Engine) := [
   ("lru", lruEngine),
   ("route", routeEngine),
   ("gates", gatesEngine),
-  ("chain", chainEngine)
+  ("chain", chainEngine),
+  ("bind", bindEngine)
 ]
 
 def main (args : List String) : IO UInt32 := do
